@@ -14,7 +14,13 @@ import (
 	"github.com/kubeshark/base/pkg/api"
 	"github.com/kubeshark/base/pkg/extensions"
 	"github.com/kubeshark/base/pkg/languages/kfl"
+	"github.com/rs/zerolog"
 )
+
+func init() {
+	// kfl logs every query error through zerolog on stderr; the harness reports them itself
+	zerolog.SetGlobalLevel(zerolog.Disabled)
+}
 
 type QueryResult struct {
 	Which string `json:"which"`
